@@ -26,10 +26,15 @@ def build(spec):
     directlyProvides(objs[0], ifs[len(ifs) // 2])
     made = []
 
+    class FalsyRes(tuple):
+        # a result that is falsy but not None (an adapter with __len__ 0 / __bool__ False): only None means "no adapter"
+        def __bool__(self):
+            return False
+
     def factory(tag, ret_none=False):
         def f(*a):
             made.append((tag, a))
-            return None if ret_none else (tag, a)
+            return None if ret_none else (FalsyRes((tag, a)) if tag % 2 else (tag, a))
         f.tag = tag
         return f
     specs = ifs + [implementedBy(Base), implementedBy(Sub)]
